@@ -32,6 +32,8 @@ func backendFiles(f string) bool {
 	return !strings.HasSuffix(f, "_test.go") && (strings.Contains(f, "/internal/cpp/") || strings.Contains(f, "/internal/python/") || strings.Contains(f, "/internal/matlab/") || strings.Contains(f, "/internal/ndjsoncommon/") || strings.Contains(f, "/internal/formatting/") || strings.Contains(f, "/internal/iocommon/"))
 }
 
+func topoSortFiles(f string) bool { return strings.HasSuffix(f, "/pkg/dsl/validation_topological_sort.go") }
+
 func dslValidationFiles(f string) bool {
 	return strings.Contains(f, "/pkg/dsl/validation") || strings.HasSuffix(f, "/pkg/dsl/yaml.go")
 }
@@ -47,6 +49,7 @@ func init() {
 	reg("C03", ruleEmittedSymbols, rulePlan)
 	reg("C08", ruleEmittedSymbols, ruleSwitchDefaults(backendFiles, "P4", 25), ruleReservedTables, ruleIdentifierHelpers, ruleDependenciesFirst, ruleOptionGating, ruleUniquenessVsMangling)
 	reg("C19", ruleCommonTypeMap, ruleEmitterSiblings, ruleParenthesisation, ruleOperatorTokens, rulePromotionNotBypassed)
+	reg("C13", ruleAliasTable, ruleSpellingErased, ruleShorthandTwins, ruleDocCommentSuffix, ruleTypeTags, ruleSchemaCanonical, rulePrunes(topoSortFiles, "V5", 2))
 	reg("C07", ruleStateMachine)
 	reg("C02", ruleJsonKinds, ruleUnionTagDecision, ruleKindTests, ruleOptionalFieldSymmetry)
 	reg("C14", rulePlan, ruleRecordOrder, ruleOptionalFieldSymmetry)
